@@ -211,3 +211,15 @@ package coordinator
 //@   ghost respErr bool = false
 //@   at after RemoveHintedHandoffResponse.UnmarshalBinary#1: ghost respErr = resp.Err != nil
 //@   ensures err_surfaces: respErr ==> result != nil
+
+// ---- C08.2: the write path's shard-group list must pick the group the metadata designates ----
+
+//@ pure contains_t(g, t) = !t.Before(g.StartTime) && t.Before(g.EndTime)
+
+//@ func (sgList).ShardGroupAt
+//@   props C08
+//@   requires sorted_already: !l.needsSort
+//@   loop 1 invariant idx_range: 0 <= idx && idx <= len(l.items)
+//@   ensures in_list: result != nil ==> is_elem_of(result, l.items)
+//@   ensures contains: result != nil ==> contains_t(result, t)
+//@   ensures sound: result != nil ==> designates(result, t)
